@@ -6,10 +6,14 @@ package simos
 
 import (
 	"errors"
+	"fmt"
 	"io"
 	"io/fs"
 	"sort"
+	"strconv"
+	"strings"
 	"syscall"
+	"time"
 )
 
 // Faults is the fault plan of one simulated run of the tool. Offsets are byte
@@ -279,3 +283,166 @@ func next(s *uint64) uint64 {
 	z = (z ^ (z >> 27)) * 0x94d049bb133111eb
 	return z ^ (z >> 31)
 }
+
+// ---------------------------------------------------------------------------
+// The rest of the file-system surface a tool like pigeon may reasonably grow
+// into (writing through a temporary file and renaming it, checking for an
+// existing output, creating the output directory).
+
+type fileInfo struct {
+	name string
+	size int64
+	dir  bool
+}
+
+func (i fileInfo) Name() string { return i.name }
+func (i fileInfo) Size() int64  { return i.size }
+func (i fileInfo) Mode() fs.FileMode {
+	if i.dir {
+		return fs.ModeDir | 0o755
+	}
+	return 0o644
+}
+func (i fileInfo) ModTime() time.Time { return time.Unix(0, 0) }
+func (i fileInfo) IsDir() bool        { return i.dir }
+func (i fileInfo) Sys() any           { return nil }
+
+// Stat mirrors os.Stat.
+func Stat(name string) (fs.FileInfo, error) {
+	if w.Dirs[name] {
+		return fileInfo{name: name, dir: true}, nil
+	}
+	if b, ok := w.Files[name]; ok {
+		return fileInfo{name: name, size: int64(len(b))}, nil
+	}
+	return nil, &fs.PathError{Op: "stat", Path: name, Err: syscall.ENOENT}
+}
+
+// Lstat mirrors os.Lstat.
+func Lstat(name string) (fs.FileInfo, error) { return Stat(name) }
+
+// Remove mirrors os.Remove.
+func Remove(name string) error {
+	if w.Exited {
+		return nil
+	}
+	if _, ok := w.Files[name]; !ok {
+		return &fs.PathError{Op: "remove", Path: name, Err: syscall.ENOENT}
+	}
+	delete(w.Files, name)
+	if w.OutFile == name {
+		w.OutFile = ""
+	}
+	return nil
+}
+
+// Rename mirrors os.Rename.
+func Rename(oldpath, newpath string) error {
+	if w.Exited {
+		return nil
+	}
+	b, ok := w.Files[oldpath]
+	if !ok {
+		return &fs.PathError{Op: "rename", Path: oldpath, Err: syscall.ENOENT}
+	}
+	if w.Dirs[newpath] {
+		return &fs.PathError{Op: "rename", Path: newpath, Err: syscall.EISDIR}
+	}
+	if w.F.OutCloseErr && w.OutFile == oldpath {
+		// the last step that makes the output durable fails
+		w.Fired.OutCloseErr = true
+		return &fs.PathError{Op: "rename", Path: newpath, Err: syscall.EIO}
+	}
+	w.Files[newpath] = b
+	delete(w.Files, oldpath)
+	if w.OutFile == oldpath {
+		w.OutFile = newpath
+	}
+	return nil
+}
+
+// MkdirAll mirrors os.MkdirAll.
+func MkdirAll(path string, _ fs.FileMode) error {
+	if _, ok := w.Files[path]; ok {
+		return &fs.PathError{Op: "mkdir", Path: path, Err: syscall.ENOTDIR}
+	}
+	w.Dirs[path] = true
+	return nil
+}
+
+// Mkdir mirrors os.Mkdir.
+func Mkdir(path string, m fs.FileMode) error { return MkdirAll(path, m) }
+
+var tempN int
+
+// CreateTemp mirrors os.CreateTemp.
+func CreateTemp(dir, pattern string) (*File, error) {
+	if dir == "" {
+		dir = "/tmp"
+	}
+	tempN++
+	name := dir + "/" + strings.Replace(pattern, "*", strconv.Itoa(tempN), 1)
+	if !strings.Contains(pattern, "*") {
+		name += strconv.Itoa(tempN)
+	}
+	return Create(name)
+}
+
+// TempDir mirrors os.TempDir.
+func TempDir() string { return "/tmp" }
+
+// Getwd mirrors os.Getwd.
+func Getwd() (string, error) { return "/sim", nil }
+
+// Chmod mirrors os.Chmod.
+func Chmod(name string, _ fs.FileMode) error {
+	if _, err := Stat(name); err != nil {
+		return err
+	}
+	return nil
+}
+
+// Stat mirrors (*os.File).Stat.
+func (f *File) Stat() (fs.FileInfo, error) {
+	return fileInfo{name: f.name, size: int64(len(f.data)), dir: f.isDir}, nil
+}
+
+// Chmod mirrors (*os.File).Chmod.
+func (f *File) Chmod(fs.FileMode) error { return nil }
+
+// Truncate mirrors (*os.File).Truncate.
+func (f *File) Truncate(size int64) error {
+	if int(size) < len(f.data) {
+		f.data = f.data[:size]
+		if f.role == roleOut && f != Stdout {
+			w.Files[f.name] = f.data
+		}
+	}
+	return nil
+}
+
+// ---------------------------------------------------------------------------
+// package log: Fatal* must not end the simulation's process, Print* must go to
+// the simulated stderr (without a timestamp: the simulated clock does not run).
+
+// LogFatal mirrors log.Fatal.
+func LogFatal(v ...any) { fmt.Fprint(Stderr, v...); fmt.Fprintln(Stderr); Exit(1) }
+
+// LogFatalf mirrors log.Fatalf.
+func LogFatalf(format string, v ...any) {
+	fmt.Fprintf(Stderr, format, v...)
+	fmt.Fprintln(Stderr)
+	Exit(1)
+}
+
+// LogFatalln mirrors log.Fatalln.
+func LogFatalln(v ...any) { fmt.Fprintln(Stderr, v...); Exit(1) }
+
+// LogPrint mirrors log.Print.
+func LogPrint(v ...any) { fmt.Fprint(Stderr, v...); fmt.Fprintln(Stderr) }
+
+// LogPrintf mirrors log.Printf.
+func LogPrintf(format string, v ...any) { fmt.Fprintf(Stderr, format, v...); fmt.Fprintln(Stderr) }
+
+// LogPrintln mirrors log.Println.
+func LogPrintln(v ...any) { fmt.Fprintln(Stderr, v...) }
